@@ -77,16 +77,27 @@ async def drive(spec: dict[str, Any], run: Run) -> None:
             run.kinds.add(kind + ':' + (r.cond or b'closed').decode())
             return r
 
+        async def raw_line(line: bytes) -> None:
+            """Feed a hostile line and let the server answer whatever it
+            answers (tagged, * BAD, continuation); then resynchronise."""
+            if c.dead:
+                return
+            c.in_flight = line
+            c.feed(line)
+            run.count('commands')
+            for _ in range(4):
+                await c.loop.quiescent()      # type: ignore[attr-defined]
+                new = c.drain_new()
+                if c.dead or not any(r.kind == 'cont' for r in new):
+                    break
+                c.feed(b'*\r\n')
+            c.in_flight = None
+
         # pre-auth echo channels: tags, SASL, ID
         for _ in range(rng.randint(0, 3)):
             tag = rng.choice([b'a"b', b'\xfftag', b'(t)', b'{1}', b'*', b'+x',
                               b'a\\b', b't]', b'%', b'x' * 300])
-            if c.dead:
-                break
-            await c.command(tag, [tag + b' NOOP\r\n'], delay=False)
-            run.count('commands')
-            # an unparsable tag is answered with "* BAD"; the harness sends a
-            # plain command afterwards to resynchronise
+            await raw_line(tag + b' NOOP\r\n')
             await cmd(b'NOOP', 'resync')
         if rng.random() < 0.5:
             await cmd(b'ID (' + b' '.join(
@@ -94,11 +105,10 @@ async def drive(spec: dict[str, Any], run: Run) -> None:
                 for _ in range(rng.choice([2, 4]))) + b')', 'id')
         if rng.random() < 0.3:
             tag = c.next_tag()
-            await c.command(tag, [tag + b' AUTHENTICATE PLAIN\r\n',
-                                  rng.choice([b'*', b'!!!', b'AGEAYg==',
-                                              b'\xff\xfe', b'=']) + b'\r\n'],
-                            delay=False)
-            run.count('commands')
+            await raw_line(tag + b' AUTHENTICATE PLAIN\r\n')
+            await raw_line(rng.choice([b'*', b'!!!', b'AGEAYg==',
+                                       b'\xff\xfe', b'=']) + b'\r\n')
+            await cmd(b'NOOP', 'resync')
         await cmd(b'LOGIN u1 pw1', 'login')
         # names
         names = [pick_name(rng) for _ in range(rng.randint(1, 4))]
@@ -139,7 +149,9 @@ async def drive(spec: dict[str, Any], run: Run) -> None:
         r = await cmd(b'SELECT ' + box, 'select')
         if r is not None and r.ok:
             await cmd(b'FETCH 1:* ' + FETCH_ALL, 'fetch-all')
-            for part in rng.sample(FETCH_PARTS, rng.randint(2, 6)):
+            parts = rng.sample(FETCH_PARTS, rng.randint(2, 6))
+            late = [p for p in parts if b'BINARY' in p]
+            for part in [p for p in parts if p not in late]:
                 await cmd(b'FETCH 1:* ' + part, 'fetch-part')
             await cmd(b'STORE 1 +FLAGS (' + b' '.join(rng.sample(
                 KEYWORDS, 2)) + b' \\Seen)', 'store')
@@ -150,20 +162,17 @@ async def drive(spec: dict[str, Any], run: Run) -> None:
                 await cmd(b'COPY 1:* ' + gen.wire_mailbox(names[0]), 'copy')
             if rng.random() < 0.3:
                 await cmd(b'EXPUNGE', 'expunge')
+            # BINARY of hostile content may hit the known C06 findings
+            # (connection dies): issue those last
+            for part in late:
+                await cmd(b'FETCH 1:* ' + part, 'fetch-part')
         # hostile garbage -> BAD text echoes
         for _ in range(rng.randint(1, 3)):
-            if c.dead:
-                break
             line = gen.hostile_line(rng, 'selected')
             if b'\n' in line or len(line) > 60000:
                 continue
-            tag = c.next_tag()
-            await c.command(tag, [tag + b' ' + line + b'\r\n'], delay=False)
-            run.count('commands')
-            if c.in_flight is not None and not c.dead:
-                # the line opened a literal / continuation: abandon politely
-                c.feed(b'*\r\n')
-                await asyncio_yield(c)
+            await raw_line(c.next_tag() + b' ' + line + b'\r\n')
+            await cmd(b'NOOP', 'resync')
         if not c.dead:
             await cmd(b'LOGOUT', 'logout')
             await c.wait_closed()
